@@ -488,11 +488,18 @@ def main():
         prefixes = [()]
         for _ in range(d - 1):
             prefixes = [p + (i,) for p in prefixes for i in range(NOPS)]
+        sym = ""
+        if d >= 4:
+            # symmetry reduction for the deepest level only: the two secnonce slots are interchangeable (a history that starts on
+            # slot 1 is the mirror image of one that starts on slot 0, with the two fixed messages exchanged), so the first
+            # operation is taken from slot 0 (or the slot-less partial_sign(NULL)); all histories up to depth 3 are enumerated in full on prod-verify
+            prefixes = [p for p in prefixes if OPS[p[0]][1] != 1]
+            sym = " [depth-%d histories start on slot 0: slot symmetry]" % d
         name = "%s/unmerged-depth-%d" % (cfg, d)
         st = run_phase(run, name, unmerged_case, prefixes, setup=setup(cfg), nproc=(None if len(prefixes) > 400 else 4),
                        rule="ALL %d^%d operation sequences (and, as prefixes, all shorter ones) over 2 secnonce slots, %d-operation alphabet, no state merging, each sequence replayed on fresh objects; after every call: slot all-zero <=> model ZERO, live bytes = NonceGen model bound to the supplied key, any partial_sign handed a secnonce leaves it all-zero, <=1 signature per nonce id, return 0 leaves no verifying signature, secrand wiped on success, zero secrand refused; non-trivial = nonces generated / signatures issued"
-                       % (NOPS, d, NOPS),
-                       extra={"bounds": {"depth": d, "alphabet": NOPS, "sequences": NOPS ** d, "merging": False}})
+                       % (NOPS, d, NOPS) + sym,
+                       extra={"bounds": {"depth": d, "alphabet": NOPS, "sequences": len(prefixes) * NOPS, "merging": False}})
         seen = functional(run, name, st.states)
         if name in run.cov["phases"]:
             run.cov["phases"][name]["states"] = len({k[0] for k in seen})
